@@ -19,6 +19,9 @@ import os
 
 SKIP_DIRS = {'visualization', 'samples'}
 SKIP_METHODS = {'view', 'draw', 'draw3D', 'info', '_plot', 'plot'}
+MUTATING_CONTAINER_METHODS = {'sort', 'append', 'extend', 'insert', 'pop', 'remove', 'reverse', 'clear', 'setdefault', 'popitem',
+                              'fill', 'resize', 'itemset', 'put', 'partition', 'add', 'discard'}
+EXTERNAL_RECEIVERS_EARLY = {'np', 'plt', 'pd', 'os', 'yaml', 'json', 'warnings', 'math', 'fig', 'ax', 'axs'}
 FRESH_PROPERTIES = set()      # names of @property methods that build and return a new array/list (filled by load())
 DICT_RECEIVERS = {'data', 'kwargs', 'config', 'filtered_params', 'filtered_kwargs', 'd', 'out', 'result', 'results', 'behavior_kwargs',
                   'surface_config', 'radius_dict', 'weights_dict', 'unit_conversion', 'distribution_classes', 'variable_types'}
@@ -181,6 +184,13 @@ class _Visitor(ast.NodeVisitor):
         if name is None and isinstance(f, (ast.Subscript, ast.Call)):
             # indirect call through a table / returned callable: self.table[key](...)
             self.fn.calls.append(('<indirect>', ast.unparse(f)[:40], None, [], {}, node.lineno))
+        if name in MUTATING_CONTAINER_METHODS and isinstance(f, ast.Attribute):
+            head = ast.unparse(f.value).split('.')[0].split('(')[0]
+            if head not in EXTERNAL_RECEIVERS_EARLY:
+                k = self.kind_of_value(f.value)
+                if k.startswith('alias:') and not isinstance(f.value, ast.Name) and k[6:] == 'self':
+                    k = 'self'
+                self.fn.writes.append(('inplace', k, ast.unparse(f.value) + '.' + name + '()', None, node.lineno))
         if name:
             argk = []
             for a in node.args:
